@@ -326,4 +326,33 @@ def mainDone (s : St) : Bool :=
   | .returned | .raised => true
   | _ => false
 
+
+/-! ### `Application.run()` over the pipeline series (`wpull/application/app.py`)
+
+```
+for pipeline in self._pipeline_series.pipelines:
+    if self._state == stopping and pipeline.skippable: continue
+    try: yield from pipeline.process()
+    except Exception: … break
+```
+`stopDuring = some j`: `Application.stop()` is called while pipeline `j` runs (state := stopping, the
+running pipeline is stopped); `failIn = some j`: `pipeline j .process()` raises. -/
+
+structure PipeSpec where
+  work : Bool        -- the pipeline's source hands out work items (not the one-shot housekeeping `AppSource`)
+  skippable : Bool
+  deriving DecidableEq, Repr
+
+/-- indexes of the pipelines that are started, in order -/
+def appRun : List PipeSpec → Nat → Bool → Option Nat → Option Nat → List Nat
+  | [], _, _, _, _ => []
+  | p :: ps, i, stopping, sd, fi =>
+    if stopping && p.skippable then appRun ps (i + 1) stopping sd fi
+    else if fi == some i then [i]
+    else i :: appRun ps (i + 1) (stopping || sd == some i) sd fi
+
+/-- the series `Builder._build_pipelines` builds: start-up, download, download-stop, link conversion, shutdown -/
+def wpullSeries : List PipeSpec :=
+  [⟨false, false⟩, ⟨true, true⟩, ⟨false, true⟩, ⟨true, true⟩, ⟨false, false⟩]
+
 end Wpull.Pipeline
